@@ -144,17 +144,21 @@ def compare_functions(ctx, tag, case_info, name, n1, n2):
     raises2 = [t for t, n in zip(n2["body"], n2["nodes"]) if genfiles.is_raises_block(n) is not None]
     b1, b2 = list(n1["body"]), list(n2["body"])
     marker_lost = False
+    converted = False
+    if x1:
+        # a statement F1 leaves bare under its xfail marker may come back wrapped in pytest.raises (the parser resolved the callable,
+        # the exception is one it declares); compare the rest with the wrapper removed
+        for nr in [t for t in raises2 if t not in raises1]:
+            inner = nr.split(":\n", 1)[-1].strip()
+            if inner in b1 and inner not in b2:
+                b2 = [inner if t == nr else t for t in b2]
+                if not converted:
+                    ctx.witness("changed:xfail-marker->pytest.raises", f"{tag} {name}: F1 marks the function xfail(strict=True) and leaves `{inner[:60]}` bare; "
+                                f"F2 wraps it in `{nr.splitlines()[0]}`" + ("" if x2 else " and has no marker"), info)
+                converted = True
+                found = True
     if x1 and not x2:
-        new_raises = [t for t in raises2 if t not in raises1]
-        if new_raises:
-            inner = new_raises[0].split(":\n", 1)[-1].strip()
-            if inner in b1:
-                # the bare raising statement of F1 came back wrapped: compare the rest with the wrapper removed
-                b2 = [inner if t == new_raises[0] else t for t in b2]
-            ctx.witness("changed:xfail-marker->pytest.raises", f"{tag} {name}: F1 marks the function xfail(strict=True) and leaves `{inner[:60]}` bare; "
-                        f"F2 has no marker and wraps it in `{new_raises[0].splitlines()[0]}`", info)
-            found = True
-        else:
+        if not converted:
             marker_lost = True
     elif x2 and not x1:
         gone = [t for t in raises1 if t not in raises2]
@@ -220,6 +224,7 @@ def compare_functions(ctx, tag, case_info, name, n1, n2):
             if wrapped is not None:
                 extra.remove(wrapped)
                 lost.remove(t)
+                b2 = [t if x == wrapped else x for x in b2]
                 if case_info.get("unverified"):
                     ctx.anomaly("after-filter-timeout:changed:failing-assert->pytest.raises(AssertionError)")
                 else:
@@ -265,6 +270,8 @@ def compare_functions(ctx, tag, case_info, name, n1, n2):
         found = True
     if lost or extra or unbound:
         return False
+    if b1 == b2:
+        return not found
     # same multiset, different order
     if _strip_assert_order(b1, [nodes1.get(t) or ast.parse(t).body[0] for t in b1]) == _strip_assert_order(b2, [nodes2.get(t) or ast.parse(t).body[0] for t in b2]):
         ctx.anomaly("assert-order-inside-a-run-of-asserts-changed")
